@@ -100,6 +100,7 @@ if not [l for l in log if l[0] == 'ping' and l[2] == 'early']:
     bad.append('event queued on c before c.register(b) (b nested under a) was never dispatched')
 if not [l for l in log if l == ('registered', 'c', 'b')]:
     bad.append('registered(c, b) was not delivered')
+print('random register/unregister histories (60 seeds) against a forest model + hand-written scenarios: %d violating' % len(bad))
 for b_ in bad[:6]: print(b_)
 if bad: print('REPRODUCED')
 sys.exit(1 if bad else 0)
